@@ -14,6 +14,7 @@
 //        f1  = 1 iff color_converted_view<dst>(view)(x,y) equals color_convert(view(x,y)) for every pixel (and has the same dimensions)
 //        f2  = 1 iff copy_and_convert_pixels(view, dstview) wrote color_convert(view(x,y)) into every pixel
 //   lumax <srcdepth> <dstdepth> <axis> r g b n step -> gray_0 .. gray_{n-1}   (rgb -> gray, channel <axis> = base + i*step)
+//   cmykrow <k>     row k of the double-scale table of rgb8 -> cmyk8: uint8_t(d * (255/double(255-k))) for d = 0..255-k, read off the cyan channel
 //   sweep8 <r>      all 65536 rgb8 pixels (r,g,b): gray8, cmyk8, cmyk8 -> rgb8   ->  <hash> <C++-side Spec failures> <first failing g b | ->
 //   sweepA <g> <b>  all 65536 rgba8 pixels (r,g,b,a): rgb8, gray8, cmyk8 and the same from the premultiplied pixel
 //                                                                                  ->  <hash> <failures> <first failing r a | ->
@@ -210,6 +211,16 @@ int main() {
             L("32f", gil::rgb32f_pixel_t, "8", gil::gray8_pixel_t) L("32f", gil::rgb32f_pixel_t, "16", gil::gray16_pixel_t) L("32f", gil::rgb32f_pixel_t, "32f", gil::gray32f_pixel_t)
 #undef L
             return "bad-op";
+        }
+        if (w.size() == 2 && w[0] == "cmykrow") {
+            // row k of the scale table of rgb8 -> cmyk8: cyan of the pixel with c = k + d, m = y = k, for d = 0 .. 255-k
+            int k = (int)hv::to_ll(w[1]); if (k < 0 || k > 254) return "bad-op";
+            std::string r;
+            for (int d = 0; d + k <= 255; ++d) {
+                gil::rgb8_pixel_t p(255 - (k + d), 255 - k, 255 - k); gil::cmyk8_pixel_t c; gil::color_convert(p, c);
+                r += std::to_string((int)c[0]); r += ' ';
+            }
+            return r;
         }
         if (w.size() == 2 && w[0] == "sweep8") return sweep8((int)hv::to_ll(w[1]));
         if (w.size() == 3 && w[0] == "sweepA") return sweepA((int)hv::to_ll(w[1]), (int)hv::to_ll(w[2]));
